@@ -209,6 +209,42 @@ def fam_do(E, k, real=False):
     E.prove(ex is not None and EQ(ex[2], latest), 'scope-exits-with-last-child')
 
 
+def fam_many(E, k, real=False, waitqueue=None):
+    """k sleepers with distinct symbolic delays, spawned in order: all k! x ties weak orderings
+    of the pending dates, i.e. every shape the wait queue (heap / sorted dict) can take"""
+    start = E.num('start', -5, 5, real=real)
+    d = [E.num('d%d' % i, 0, 40, real=real) for i in range(k)]
+    log = Log()
+
+    async def sleeper(i):
+        await (time + d[i])
+        log(i, 'resume')
+
+    async def root():
+        async with Scope() as scope:
+            for i in range(k):
+                scope.do(sleeper(i))
+
+    wq = None
+    if waitqueue == 'SD':
+        from usim._core.waitq import SDWaitQueue as wq
+    out = simulate(root(), start=start, log=log, waitqueue=wq)
+    bad = classify_run_exception(out.exc, allowed=())
+    E.prove(bad is None, 'run-ends-normally', bad)
+    if out.exc is not None:
+        return
+    prev = None
+    for i in range(k):
+        ev = log.first(i, 'resume')
+        if E.prove(ev is not None, 'resumes'):
+            E.prove(EQ(ev[2], start + d[i]), 'resumes-at-exact-date',
+                    ('sleeper %d slept %r from %r, resumed at %r', i, d[i], start, ev[2]))
+    for e in log.events:
+        if prev is not None:
+            E.prove(GE(e[2], prev), 'log-monotone', ('%r after %r', e[2], prev))
+        prev = e[2]
+
+
 K7 = [DELAY, MOMENT, AFTER, BEFORE, INSTANT, ETERNITY, UNTIL_AFTER]
 K9 = list(range(9))
 K5 = [DELAY, MOMENT, AFTER, BEFORE, UNTIL_MOMENT]
@@ -236,6 +272,14 @@ FAMILIES = [
     Family('pair2real', fam_waits,
            thorough=dict(k=2, waits=2, kinds=K5, real=True),
            bounds='2 activities x 2 waits, exact rational dates'),
+    Family('many', fam_many,
+           quick=dict(k=6),
+           thorough=dict(k=7),
+           bounds='6 (thorough 7) sleepers: every weak ordering of the pending dates'),
+    Family('many_sd', fam_many,
+           quick=dict(k=5, waitqueue='SD'),
+           thorough=dict(k=6, waitqueue='SD'),
+           bounds='as many, on the SortedDict wait queue backend'),
     Family('do2', fam_do,
            quick=dict(k=2),
            thorough=dict(k=3),
